@@ -102,17 +102,17 @@ for _pid in ["C03", "C05", "C07", "C13", "C17"]:
 
 RULES = {
     'C01': "cacheconc stage: 2..16 (thorough ..64) goroutines x 10..120 generated ops on 2..32 shared keys (hot-key bias, some owned keys), GOMAXPROCS 1..16, yielding/fake-sleeping callbacks, setBufSize 1..1024, MaxCost 3..22, inside a synctest bubble; every op and callback stamped from one atomic counter; history oracles are linear-time and schedule-independent. Key types uint64,int,int32,uint32,int64,uint,byte,string,[]byte and named types of them (reflection path of KeyToHash); text keys include the empty key, NUL bytes, one number at several widths, shared prefixes, 8/9-byte keys; a yielding ShouldUpdate predicate in some cases; for string/[]byte also Config.KeyToHash mapping all keys onto 1..3 primary hashes with distinct non-zero conflicts (and a distinct-primaries control). Oracle: every value returned by Get/IterValues was supplied by a Set for exactly that key whose invocation precedes the read's return. stress stage: 4..16 goroutines hammer Set/Get/Del on 2..16 keys for 250 ms of real time per case with a tiny write buffer and an applier stalled inside Config.Cost; every value carries its key in the upper 32 bits and every hit is checked (no history; the count of operations is reported). Non-trivial: >=1 hit on a key sharing its primary hash with another written key, or >=1 hit while a write to the same key was in flight (stress: >1000 checked hits with a stalled applier); distinct = FNV hash of (config, programs).",
-    'C02': "cacheconc stage: 2..16 (thorough ..64) goroutines x 10..120 generated ops on 2..32 shared keys (hot-key bias, some owned keys), GOMAXPROCS 1..16, yielding/fake-sleeping callbacks, setBufSize 1..1024, MaxCost 3..22, inside a synctest bubble; every op and callback stamped from one atomic counter; history oracles are linear-time and schedule-independent. Oracle: no Get/IterValues invoked after a value's OnExit stamp returns it. cachesm stage: sequential client + harness-owned applier + synctest fake clock (DESIGN.md section 3, E1). Per case a config (MaxCost fitting 2..5 items or roomy, NumCounters, BufferItems, Metrics, IgnoreInternalCost, Cost fn, ShouldUpdate fn, ticker 1..5 s, setBufSize 1..64, bucket 1|5 s, 8|32 keys) and 5..60+ generated actions from Set/SetWithTTL/Del/Get/GetTTL/IterValues/Step(n)/Wait/park-in-Wait/Advance(d)/Sweep/SweepWith(program inside the j-th OnEvict)/Quiesce/UpdateMaxCost/Clear (stand-in or live applier), always ended by drain + Close + calls on the closed cache. Oracle: reference model with explicit FIFO (rules R1-R9); only assertions owned by this property are reported, a case that breaks another property's assertion first is discarded and counted. C02-owned: no read returns a value already passed to OnExit / already overwritten. Non-trivial (conc): >=1 served value that later exited; (cachesm): eviction, expiry or Del occurred and a drained check saw residents.",
-    'C03': "cachesm stage: sequential client + harness-owned applier + synctest fake clock (DESIGN.md section 3, E1). Per case a config (MaxCost fitting 2..5 items or roomy, NumCounters, BufferItems, Metrics, IgnoreInternalCost, Cost fn, ShouldUpdate fn, ticker 1..5 s, setBufSize 1..64, bucket 1|5 s, 8|32 keys) and 5..60+ generated actions from Set/SetWithTTL/Del/Get/GetTTL/IterValues/Step(n)/Wait/park-in-Wait/Advance(d)/Sweep/SweepWith(program inside the j-th OnEvict)/Quiesce/UpdateMaxCost/Clear (stand-in or live applier), always ended by drain + Close + calls on the closed cache. Oracle: reference model with explicit FIFO (rules R1-R9); only assertions owned by this property are reported, a case that breaks another property's assertion first is discarded and counted. C03-owned: after every applied item RemainingCost()==MaxCost-sum(accounted)==MaxCost-model used; cost>MaxCost never admitted; OnEvict carries the accounted cost; RemainingCost()>=0 when drained unless a cost-raising overwrite occurred. Non-trivial: an admission that needed eviction after a cost-changing overwrite/Del was applied. cacheconc stage: 2..16 (thorough ..64) goroutines x 10..120 generated ops on 2..32 shared keys (hot-key bias, some owned keys), GOMAXPROCS 1..16, yielding/fake-sleeping callbacks, setBufSize 1..1024, MaxCost 3..22, inside a synctest bubble; every op and callback stamped from one atomic counter; history oracles are linear-time and schedule-independent. End state after Wait: RemainingCost identity. (cachesm, drained: a key charged a non-zero cost that the map does not hold breaks 'MaxCost minus the costs of the resident keys' - shared with C13.)",
-    'C04': "cacheconc stage: 2..16 (thorough ..64) goroutines x 10..120 generated ops on 2..32 shared keys (hot-key bias, some owned keys), GOMAXPROCS 1..16, yielding/fake-sleeping callbacks, setBufSize 1..1024, MaxCost 3..22, inside a synctest bubble; every op and callback stamped from one atomic counter; history oracles are linear-time and schedule-independent. Oracle after Close: every value whose Set returned true has exactly one OnExit, none for refused Sets, OnEvict/OnReject <=1 each and before the OnExit, values accepted before a Clear was invoked exit before it returns. cachesm stage: sequential client + harness-owned applier + synctest fake clock (DESIGN.md section 3, E1). Per case a config (MaxCost fitting 2..5 items or roomy, NumCounters, BufferItems, Metrics, IgnoreInternalCost, Cost fn, ShouldUpdate fn, ticker 1..5 s, setBufSize 1..64, bucket 1|5 s, 8|32 keys) and 5..60+ generated actions from Set/SetWithTTL/Del/Get/GetTTL/IterValues/Step(n)/Wait/park-in-Wait/Advance(d)/Sweep/SweepWith(program inside the j-th OnEvict)/Quiesce/UpdateMaxCost/Clear (stand-in or live applier), always ended by drain + Close + calls on the closed cache. Oracle: reference model with explicit FIFO (rules R1-R9); only assertions owned by this property are reported, a case that breaks another property's assertion first is discarded and counted. C04-owned: per-callback bookkeeping, nothing unreleased after Clear/Close (concurrent engine: an OnExit that arrives after a Clear returned is accepted only when it happens inside a Del or a successful Set of the same key that was in flight - that call had detached the value and delivers it; counted). Non-trivial: buffer-full drop + rejection/eviction + a Clear (cachesm: that found buffered items).",
-    'C05': "cachesm stage: sequential client + harness-owned applier + synctest fake clock (DESIGN.md section 3, E1). Per case a config (MaxCost fitting 2..5 items or roomy, NumCounters, BufferItems, Metrics, IgnoreInternalCost, Cost fn, ShouldUpdate fn, ticker 1..5 s, setBufSize 1..64, bucket 1|5 s, 8|32 keys) and 5..60+ generated actions from Set/SetWithTTL/Del/Get/GetTTL/IterValues/Step(n)/Wait/park-in-Wait/Advance(d)/Sweep/SweepWith(program inside the j-th OnEvict)/Quiesce/UpdateMaxCost/Clear (stand-in or live applier), always ended by drain + Close + calls on the closed cache. Oracle: reference model with explicit FIFO (rules R1-R9); only assertions owned by this property are reported, a case that breaks another property's assertion first is discarded and counted. C05-owned: once Del(k) returned, the FIFO drained and no Set(k) was issued, every read of k misses. Non-trivial: Del issued while an insert of k was still buffered. cacheconc stage: 2..16 (thorough ..64) goroutines x 10..120 generated ops on 2..32 shared keys (hot-key bias, some owned keys), GOMAXPROCS 1..16, yielding/fake-sleeping callbacks, setBufSize 1..1024, MaxCost 3..22, inside a synctest bubble; every op and callback stamped from one atomic counter; history oracles are linear-time and schedule-independent. Owned keys: Del, Wait, Get by the owner misses; a third of the cases use string keys with engineered primary-hash collisions, owners have two private keys and the pattern Set(a), [Del(b)], Del(a), Wait, Get(a) is generated as a unit.",
-    'C06': "cachesm stage: sequential client + harness-owned applier + synctest fake clock (DESIGN.md section 3, E1). Per case a config (MaxCost fitting 2..5 items or roomy, NumCounters, BufferItems, Metrics, IgnoreInternalCost, Cost fn, ShouldUpdate fn, ticker 1..5 s, setBufSize 1..64, bucket 1|5 s, 8|32 keys) and 5..60+ generated actions from Set/SetWithTTL/Del/Get/GetTTL/IterValues/Step(n)/Wait/park-in-Wait/Advance(d)/Sweep/SweepWith(program inside the j-th OnEvict)/Quiesce/UpdateMaxCost/Clear (stand-in or live applier), always ended by drain + Close + calls on the closed cache. Oracle: reference model with explicit FIFO (rules R1-R9); only assertions owned by this property are reported, a case that breaks another property's assertion first is discarded and counted. Roomy configs only: MaxCost 2^40, or 'snug' (2-4 keys, MaxCost = keys x largest generated cost) with the assertion that nothing is evicted or turned away when everything fits. C06-owned: Set return values given FIFO occupancy, every Get/GetTTL/IterValues result equals the reference map (keys with duplicate buffered inserts are outside the premise), buffer empty when the reference FIFO is, a parked Wait returns exactly when its marker is consumed. Non-trivial: a hit on a value whose insert stayed buffered across >=1 other client call and a Wait with >=2 pending items.",
-    'C07': "cachesm stage: sequential client + harness-owned applier + synctest fake clock (DESIGN.md section 3, E1). Per case a config (MaxCost fitting 2..5 items or roomy, NumCounters, BufferItems, Metrics, IgnoreInternalCost, Cost fn, ShouldUpdate fn, ticker 1..5 s, setBufSize 1..64, bucket 1|5 s, 8|32 keys) and 5..60+ generated actions from Set/SetWithTTL/Del/Get/GetTTL/IterValues/Step(n)/Wait/park-in-Wait/Advance(d)/Sweep/SweepWith(program inside the j-th OnEvict)/Quiesce/UpdateMaxCost/Clear (stand-in or live applier), always ended by drain + Close + calls on the closed cache. Oracle: reference model with explicit FIFO (rules R1-R9); only assertions owned by this property are reported, a case that breaks another property's assertion first is discarded and counted. TTL-heavy profile with Advance to exp-1ns/exp/exp+1ns. C07-owned: reads serve an entry iff now<=expiration (either answer at the instant), GetTTL == remaining time exactly, (0,true) without TTL, negative ttl returns false. Non-trivial: an observation within 1ns of an expiration and a TTL replaced while the old one was pending. cacheconc stage: 2..16 (thorough ..64) goroutines x 10..120 generated ops on 2..32 shared keys (hot-key bias, some owned keys), GOMAXPROCS 1..16, yielding/fake-sleeping callbacks, setBufSize 1..1024, MaxCost 3..22, inside a synctest bubble; every op and callback stamped from one atomic counter; history oracles are linear-time and schedule-independent. A read invoked after call-time+ttl never returns the value. sweepstress stage: as described under C14 (re-writes with a later or no TTL at the instant of the sweep; a re-written entry that disappears was hidden by TTL processing before its instant).",
+    'C02': "cacheconc stage: 2..16 (thorough ..64) goroutines x 10..120 generated ops on 2..32 shared keys (hot-key bias, some owned keys), GOMAXPROCS 1..16, yielding/fake-sleeping callbacks, setBufSize 1..1024, MaxCost 3..22, inside a synctest bubble; every op and callback stamped from one atomic counter; history oracles are linear-time and schedule-independent. Oracle: no Get/IterValues invoked after a value's OnExit stamp returns it. cachesm stage: sequential client + harness-owned applier + synctest fake clock (DESIGN.md section 3, E1). Per case a config (MaxCost fitting 2..5 items or roomy, NumCounters, BufferItems, Metrics, IgnoreInternalCost, Cost fn, ShouldUpdate fn, ticker 1..5 s, setBufSize 1..64, bucket 1|5 s, 8|32 keys) and 5..60+ generated actions from Set/SetWithTTL/Del/Get/GetTTL/IterValues/Step(n)/Wait/park-in-Wait/Advance(d)/Sweep/SweepWith(program of Set/Del/Get/IterValues inside the j-th OnEvict)/Quiesce/UpdateMaxCost/Clear (stand-in or live applier), always ended by drain + Close + calls on the closed cache. Oracle: reference model with explicit FIFO (rules R1-R9); only assertions owned by this property are reported, a case that breaks another property's assertion first is discarded and counted. C02-owned: no read returns a value already passed to OnExit / already overwritten. Non-trivial (conc): >=1 served value that later exited; (cachesm): eviction, expiry or Del occurred and a drained check saw residents.",
+    'C03': "cachesm stage: sequential client + harness-owned applier + synctest fake clock (DESIGN.md section 3, E1). Per case a config (MaxCost fitting 2..5 items or roomy, NumCounters, BufferItems, Metrics, IgnoreInternalCost, Cost fn, ShouldUpdate fn, ticker 1..5 s, setBufSize 1..64, bucket 1|5 s, 8|32 keys) and 5..60+ generated actions from Set/SetWithTTL/Del/Get/GetTTL/IterValues/Step(n)/Wait/park-in-Wait/Advance(d)/Sweep/SweepWith(program of Set/Del/Get/IterValues inside the j-th OnEvict)/Quiesce/UpdateMaxCost/Clear (stand-in or live applier), always ended by drain + Close + calls on the closed cache. Oracle: reference model with explicit FIFO (rules R1-R9); only assertions owned by this property are reported, a case that breaks another property's assertion first is discarded and counted. C03-owned: after every applied item RemainingCost()==MaxCost-sum(accounted)==MaxCost-model used; cost>MaxCost never admitted; OnEvict carries the accounted cost; RemainingCost()>=0 when drained unless a cost-raising overwrite occurred. Non-trivial: an admission that needed eviction after a cost-changing overwrite/Del was applied. cacheconc stage: 2..16 (thorough ..64) goroutines x 10..120 generated ops on 2..32 shared keys (hot-key bias, some owned keys), GOMAXPROCS 1..16, yielding/fake-sleeping callbacks, setBufSize 1..1024, MaxCost 3..22, inside a synctest bubble; every op and callback stamped from one atomic counter; history oracles are linear-time and schedule-independent. End state after Wait: RemainingCost identity. (cachesm, drained: a key charged a non-zero cost that the map does not hold breaks 'MaxCost minus the costs of the resident keys' - shared with C13.)",
+    'C04': "cacheconc stage: 2..16 (thorough ..64) goroutines x 10..120 generated ops on 2..32 shared keys (hot-key bias, some owned keys), GOMAXPROCS 1..16, yielding/fake-sleeping callbacks, setBufSize 1..1024, MaxCost 3..22, inside a synctest bubble; every op and callback stamped from one atomic counter; history oracles are linear-time and schedule-independent. Oracle after Close: every value whose Set returned true has exactly one OnExit, none for refused Sets, OnEvict/OnReject <=1 each and before the OnExit, values accepted before a Clear was invoked exit before it returns. cachesm stage: sequential client + harness-owned applier + synctest fake clock (DESIGN.md section 3, E1). Per case a config (MaxCost fitting 2..5 items or roomy, NumCounters, BufferItems, Metrics, IgnoreInternalCost, Cost fn, ShouldUpdate fn, ticker 1..5 s, setBufSize 1..64, bucket 1|5 s, 8|32 keys) and 5..60+ generated actions from Set/SetWithTTL/Del/Get/GetTTL/IterValues/Step(n)/Wait/park-in-Wait/Advance(d)/Sweep/SweepWith(program of Set/Del/Get/IterValues inside the j-th OnEvict)/Quiesce/UpdateMaxCost/Clear (stand-in or live applier), always ended by drain + Close + calls on the closed cache. Oracle: reference model with explicit FIFO (rules R1-R9); only assertions owned by this property are reported, a case that breaks another property's assertion first is discarded and counted. C04-owned: per-callback bookkeeping, nothing unreleased after Clear/Close (concurrent engine: an OnExit that arrives after a Clear returned is accepted only when it happens inside a Del or a successful Set of the same key that was in flight - that call had detached the value and delivers it; counted). Non-trivial: buffer-full drop + rejection/eviction + a Clear (cachesm: that found buffered items).",
+    'C05': "cachesm stage: sequential client + harness-owned applier + synctest fake clock (DESIGN.md section 3, E1). Per case a config (MaxCost fitting 2..5 items or roomy, NumCounters, BufferItems, Metrics, IgnoreInternalCost, Cost fn, ShouldUpdate fn, ticker 1..5 s, setBufSize 1..64, bucket 1|5 s, 8|32 keys) and 5..60+ generated actions from Set/SetWithTTL/Del/Get/GetTTL/IterValues/Step(n)/Wait/park-in-Wait/Advance(d)/Sweep/SweepWith(program of Set/Del/Get/IterValues inside the j-th OnEvict)/Quiesce/UpdateMaxCost/Clear (stand-in or live applier), always ended by drain + Close + calls on the closed cache. Oracle: reference model with explicit FIFO (rules R1-R9); only assertions owned by this property are reported, a case that breaks another property's assertion first is discarded and counted. C05-owned: once Del(k) returned, the FIFO drained and no Set(k) was issued, every read of k misses. Non-trivial: Del issued while an insert of k was still buffered. cacheconc stage: 2..16 (thorough ..64) goroutines x 10..120 generated ops on 2..32 shared keys (hot-key bias, some owned keys), GOMAXPROCS 1..16, yielding/fake-sleeping callbacks, setBufSize 1..1024, MaxCost 3..22, inside a synctest bubble; every op and callback stamped from one atomic counter; history oracles are linear-time and schedule-independent. Owned keys: Del, Wait, Get by the owner misses; a third of the cases use string keys with engineered primary-hash collisions, owners have two private keys and the pattern Set(a), [Del(b)], Del(a), Wait, Get(a) is generated as a unit.",
+    'C06': "cachesm stage: sequential client + harness-owned applier + synctest fake clock (DESIGN.md section 3, E1). Per case a config (MaxCost fitting 2..5 items or roomy, NumCounters, BufferItems, Metrics, IgnoreInternalCost, Cost fn, ShouldUpdate fn, ticker 1..5 s, setBufSize 1..64, bucket 1|5 s, 8|32 keys) and 5..60+ generated actions from Set/SetWithTTL/Del/Get/GetTTL/IterValues/Step(n)/Wait/park-in-Wait/Advance(d)/Sweep/SweepWith(program of Set/Del/Get/IterValues inside the j-th OnEvict)/Quiesce/UpdateMaxCost/Clear (stand-in or live applier), always ended by drain + Close + calls on the closed cache. Oracle: reference model with explicit FIFO (rules R1-R9); only assertions owned by this property are reported, a case that breaks another property's assertion first is discarded and counted. Roomy configs only: MaxCost 2^40, or 'snug' (2-4 keys, MaxCost = keys x largest generated cost) with the assertion that nothing is evicted or turned away when everything fits. C06-owned: Set return values given FIFO occupancy, every Get/GetTTL/IterValues result equals the reference map (keys with duplicate buffered inserts are outside the premise), buffer empty when the reference FIFO is, a parked Wait returns exactly when its marker is consumed. Non-trivial: a hit on a value whose insert stayed buffered across >=1 other client call and a Wait with >=2 pending items.",
+    'C07': "cachesm stage: sequential client + harness-owned applier + synctest fake clock (DESIGN.md section 3, E1). Per case a config (MaxCost fitting 2..5 items or roomy, NumCounters, BufferItems, Metrics, IgnoreInternalCost, Cost fn, ShouldUpdate fn, ticker 1..5 s, setBufSize 1..64, bucket 1|5 s, 8|32 keys) and 5..60+ generated actions from Set/SetWithTTL/Del/Get/GetTTL/IterValues/Step(n)/Wait/park-in-Wait/Advance(d)/Sweep/SweepWith(program of Set/Del/Get/IterValues inside the j-th OnEvict)/Quiesce/UpdateMaxCost/Clear (stand-in or live applier), always ended by drain + Close + calls on the closed cache. Oracle: reference model with explicit FIFO (rules R1-R9); only assertions owned by this property are reported, a case that breaks another property's assertion first is discarded and counted. TTL-heavy profile with Advance to exp-1ns/exp/exp+1ns. C07-owned: reads serve an entry iff now<=expiration (either answer at the instant), GetTTL == remaining time exactly, (0,true) without TTL, negative ttl returns false. Non-trivial: an observation within 1ns of an expiration and a TTL replaced while the old one was pending. cacheconc stage: 2..16 (thorough ..64) goroutines x 10..120 generated ops on 2..32 shared keys (hot-key bias, some owned keys), GOMAXPROCS 1..16, yielding/fake-sleeping callbacks, setBufSize 1..1024, MaxCost 3..22, inside a synctest bubble; every op and callback stamped from one atomic counter; history oracles are linear-time and schedule-independent. A read invoked after call-time+ttl never returns the value. sweepstress stage: as described under C14 (re-writes with a later or no TTL at the instant of the sweep; a re-written entry that disappears was hidden by TTL processing before its instant).",
     'C08': 'cacheconc stage: 2..16 (thorough ..64) goroutines x 10..120 generated ops on 2..32 shared keys (hot-key bias, some owned keys), GOMAXPROCS 1..16, yielding/fake-sleeping callbacks, setBufSize 1..1024, MaxCost 3..22, inside a synctest bubble; every op and callback stamped from one atomic counter; history oracles are linear-time and schedule-independent. All twelve call types (UpdateMaxCost also lowering and toggling the capacity), clients that wake exactly at expiry ticks, under -race with GORACE halt_on_error. Oracle: race detector, panics in any goroutine, a virtual-time watchdog (24h of fake time pass only if every goroutine is durably blocked) and a stop-the-world goroutine census for mutex deadlocks (no goroutine running cache code runnable, one or more waiting for a mutex, twice 3 s apart). Non-trivial: >=3 distinct call types overlapped in time on one key, or a Clear ran in a case with hits.',
-    'C13': "cachesm stage: sequential client + harness-owned applier + synctest fake clock (DESIGN.md section 3, E1). Per case a config (MaxCost fitting 2..5 items or roomy, NumCounters, BufferItems, Metrics, IgnoreInternalCost, Cost fn, ShouldUpdate fn, ticker 1..5 s, setBufSize 1..64, bucket 1|5 s, 8|32 keys) and 5..60+ generated actions from Set/SetWithTTL/Del/Get/GetTTL/IterValues/Step(n)/Wait/park-in-Wait/Advance(d)/Sweep/SweepWith(program inside the j-th OnEvict)/Quiesce/UpdateMaxCost/Clear (stand-in or live applier), always ended by drain + Close + calls on the closed cache. Oracle: reference model with explicit FIFO (rules R1-R9); only assertions owned by this property are reported, a case that breaks another property's assertion first is discarded and counted. C13-owned at every drained point: keys(accounting)==keys(map)==model, IterValues yields each unexpired resident value once and stops when asked, RemainingCost()==MaxCost when nothing is left. Non-trivial: eviction + expiry sweep + Del in the case and a drained check with residents. cacheconc stage: 2..16 (thorough ..64) goroutines x 10..120 generated ops on 2..32 shared keys (hot-key bias, some owned keys), GOMAXPROCS 1..16, yielding/fake-sleeping callbacks, setBufSize 1..1024, MaxCost 3..22, inside a synctest bubble; every op and callback stamped from one atomic counter; history oracles are linear-time and schedule-independent. End state: accounting keys == map keys, IterValues == map values.",
-    'C14': "cachesm stage: sequential client + harness-owned applier + synctest fake clock (DESIGN.md section 3, E1). Per case a config (MaxCost fitting 2..5 items or roomy, NumCounters, BufferItems, Metrics, IgnoreInternalCost, Cost fn, ShouldUpdate fn, ticker 1..5 s, setBufSize 1..64, bucket 1|5 s, 8|32 keys) and 5..60+ generated actions from Set/SetWithTTL/Del/Get/GetTTL/IterValues/Step(n)/Wait/park-in-Wait/Advance(d)/Sweep/SweepWith(program inside the j-th OnEvict)/Quiesce/UpdateMaxCost/Clear (stand-in or live applier), always ended by drain + Close + calls on the closed cache. Oracle: reference model with explicit FIFO (rules R1-R9); only assertions owned by this property are reported, a case that breaks another property's assertion first is discarded and counted. Roomy TTL profile with Sweep, SweepWith programs (Set with later/no/short TTL, Del, Get on keys of the swept bucket, executed inside the first or second OnEvict of the sweep), late application scenarios and Quiesce. C14-owned: a sweep removes only entries whose current expiration is non-zero and has passed; after Quiesce nothing expired for > 2 buckets is left. Non-trivial: a sweep removed >=1 entry while another entry was re-written during the sweep or applied after its expiry. sweepstress stage (synctest bubble, all processors): 200..8000 entries with ttl 300 ms in one bucket (one map shard or spread), 1..8 goroutines sleep until the instant of the tick that finds the bucket due and re-write every entry with ttl 1h or no ttl while the sweep runs; everything fits; every key whose re-write returned true must be served with the new value after Wait, and expiry processing must not report a re-written value. Non-trivial: some re-writes found the old entry and others came after the sweep had removed it. backlog stage (fake clock): 1..6 writers outpace an applier that spends 0.5..3 ms of fake time per item, write buffer 1..1024, 1..4 entries with ttl 1 ms..2.5 s expire meanwhile; once the tick that finds their bucket due has fired, the entries must be reclaimed (each reported once) before the applier has taken 20000 more items (generous on purpose: an applier that takes bounded batches per wake-up still passes); non-trivial: the write buffer was non-empty at >= 9 of 10 sampling instants (every 5 ms of fake time) and the entries were reclaimed under that load.",
-    'C15': "cachesm stage: sequential client + harness-owned applier + synctest fake clock (DESIGN.md section 3, E1). Per case a config (MaxCost fitting 2..5 items or roomy, NumCounters, BufferItems, Metrics, IgnoreInternalCost, Cost fn, ShouldUpdate fn, ticker 1..5 s, setBufSize 1..64, bucket 1|5 s, 8|32 keys) and 5..60+ generated actions from Set/SetWithTTL/Del/Get/GetTTL/IterValues/Step(n)/Wait/park-in-Wait/Advance(d)/Sweep/SweepWith(program inside the j-th OnEvict)/Quiesce/UpdateMaxCost/Clear (stand-in or live applier), always ended by drain + Close + calls on the closed cache. Oracle: reference model with explicit FIFO (rules R1-R9); only assertions owned by this property are reported, a case that breaks another property's assertion first is discarded and counted. Clear/Close-heavy profile with parked waiters. C15-owned: after Clear every key misses, map and expiry index empty, access-frequency state zero, RemainingCost()==MaxCost(), the accounting names no key, metrics zero, parked waiters released, all previously live values exited once, run continues on the fresh model; after Close: Set false/Get miss/calls return, no processItems goroutine left, no callbacks. Non-trivial: a Clear found a buffered new item and a buffered update or tombstone.",
-    'C17': "cachesm stage: sequential client + harness-owned applier + synctest fake clock (DESIGN.md section 3, E1). Per case a config (MaxCost fitting 2..5 items or roomy, NumCounters, BufferItems, Metrics, IgnoreInternalCost, Cost fn, ShouldUpdate fn, ticker 1..5 s, setBufSize 1..64, bucket 1|5 s, 8|32 keys) and 5..60+ generated actions from Set/SetWithTTL/Del/Get/GetTTL/IterValues/Step(n)/Wait/park-in-Wait/Advance(d)/Sweep/SweepWith(program inside the j-th OnEvict)/Quiesce/UpdateMaxCost/Clear (stand-in or live applier), always ended by drain + Close + calls on the closed cache. Oracle: reference model with explicit FIFO (rules R1-R9); only assertions owned by this property are reported, a case that breaks another property's assertion first is discarded and counted. Metrics on. C17-owned at drained points: Hits+Misses==Gets since creation/Clear, KeysAdded-KeysEvicted==resident keys, CostAdded-CostEvicted==MaxCost-RemainingCost (mod 2^64), SetsDropped==refused new-key Sets (and Set returns false iff the reference FIFO is full), GetsKept+GetsDropped<=Gets. Non-trivial: cost-lowering overwrite + eviction + drop. cacheconc stage: 2..16 (thorough ..64) goroutines x 10..120 generated ops on 2..32 shared keys (hot-key bias, some owned keys), GOMAXPROCS 1..16, yielding/fake-sleeping callbacks, setBufSize 1..1024, MaxCost 3..22, inside a synctest bubble; every op and callback stamped from one atomic counter; history oracles are linear-time and schedule-independent. End state laws from the history.",
+    'C13': "cachesm stage: sequential client + harness-owned applier + synctest fake clock (DESIGN.md section 3, E1). Per case a config (MaxCost fitting 2..5 items or roomy, NumCounters, BufferItems, Metrics, IgnoreInternalCost, Cost fn, ShouldUpdate fn, ticker 1..5 s, setBufSize 1..64, bucket 1|5 s, 8|32 keys) and 5..60+ generated actions from Set/SetWithTTL/Del/Get/GetTTL/IterValues/Step(n)/Wait/park-in-Wait/Advance(d)/Sweep/SweepWith(program of Set/Del/Get/IterValues inside the j-th OnEvict)/Quiesce/UpdateMaxCost/Clear (stand-in or live applier), always ended by drain + Close + calls on the closed cache. Oracle: reference model with explicit FIFO (rules R1-R9); only assertions owned by this property are reported, a case that breaks another property's assertion first is discarded and counted. C13-owned at every drained point: keys(accounting)==keys(map)==model, IterValues yields each unexpired resident value once and stops when asked, RemainingCost()==MaxCost when nothing is left. Non-trivial: eviction + expiry sweep + Del in the case and a drained check with residents. cacheconc stage: 2..16 (thorough ..64) goroutines x 10..120 generated ops on 2..32 shared keys (hot-key bias, some owned keys), GOMAXPROCS 1..16, yielding/fake-sleeping callbacks, setBufSize 1..1024, MaxCost 3..22, inside a synctest bubble; every op and callback stamped from one atomic counter; history oracles are linear-time and schedule-independent. End state: accounting keys == map keys, IterValues == map values.",
+    'C14': "cachesm stage: sequential client + harness-owned applier + synctest fake clock (DESIGN.md section 3, E1). Per case a config (MaxCost fitting 2..5 items or roomy, NumCounters, BufferItems, Metrics, IgnoreInternalCost, Cost fn, ShouldUpdate fn, ticker 1..5 s, setBufSize 1..64, bucket 1|5 s, 8|32 keys) and 5..60+ generated actions from Set/SetWithTTL/Del/Get/GetTTL/IterValues/Step(n)/Wait/park-in-Wait/Advance(d)/Sweep/SweepWith(program of Set/Del/Get/IterValues inside the j-th OnEvict)/Quiesce/UpdateMaxCost/Clear (stand-in or live applier), always ended by drain + Close + calls on the closed cache. Oracle: reference model with explicit FIFO (rules R1-R9); only assertions owned by this property are reported, a case that breaks another property's assertion first is discarded and counted. Roomy TTL profile with Sweep, SweepWith programs (Set with later/no/short TTL, Del, Get on keys of the swept bucket, executed inside the first or second OnEvict of the sweep), late application scenarios and Quiesce. C14-owned: a sweep removes only entries whose current expiration is non-zero and has passed; after Quiesce nothing expired for > 2 buckets is left. Non-trivial: a sweep removed >=1 entry while another entry was re-written during the sweep or applied after its expiry. sweepstress stage (synctest bubble, all processors): 200..8000 entries with ttl 300 ms in one bucket (one map shard or spread), 1..8 goroutines sleep until the instant of the tick that finds the bucket due and re-write every entry with ttl 1h or no ttl while the sweep runs; everything fits; every key whose re-write returned true must be served with the new value after Wait, and expiry processing must not report a re-written value. Non-trivial: some re-writes found the old entry and others came after the sweep had removed it. backlog stage (fake clock): 1..6 writers outpace an applier that spends 0.5..3 ms of fake time per item, write buffer 1..1024, 1..4 entries with ttl 1 ms..2.5 s expire meanwhile; once the tick that finds their bucket due has fired, the entries must be reclaimed (each reported once) before the applier has taken 20000 more items (generous on purpose: an applier that takes bounded batches per wake-up still passes); non-trivial: the write buffer was non-empty at >= 9 of 10 sampling instants (every 5 ms of fake time) and the entries were reclaimed under that load.",
+    'C15': "cachesm stage: sequential client + harness-owned applier + synctest fake clock (DESIGN.md section 3, E1). Per case a config (MaxCost fitting 2..5 items or roomy, NumCounters, BufferItems, Metrics, IgnoreInternalCost, Cost fn, ShouldUpdate fn, ticker 1..5 s, setBufSize 1..64, bucket 1|5 s, 8|32 keys) and 5..60+ generated actions from Set/SetWithTTL/Del/Get/GetTTL/IterValues/Step(n)/Wait/park-in-Wait/Advance(d)/Sweep/SweepWith(program of Set/Del/Get/IterValues inside the j-th OnEvict)/Quiesce/UpdateMaxCost/Clear (stand-in or live applier), always ended by drain + Close + calls on the closed cache. Oracle: reference model with explicit FIFO (rules R1-R9); only assertions owned by this property are reported, a case that breaks another property's assertion first is discarded and counted. Clear/Close-heavy profile with parked waiters. C15-owned: after Clear every key misses, map and expiry index empty, access-frequency state zero, RemainingCost()==MaxCost(), the accounting names no key, metrics zero, parked waiters released, all previously live values exited once, run continues on the fresh model; after Close: Set false/Get miss/calls return, no processItems goroutine left, no callbacks. Non-trivial: a Clear found a buffered new item and a buffered update or tombstone.",
+    'C17': "cachesm stage: sequential client + harness-owned applier + synctest fake clock (DESIGN.md section 3, E1). Per case a config (MaxCost fitting 2..5 items or roomy, NumCounters, BufferItems, Metrics, IgnoreInternalCost, Cost fn, ShouldUpdate fn, ticker 1..5 s, setBufSize 1..64, bucket 1|5 s, 8|32 keys) and 5..60+ generated actions from Set/SetWithTTL/Del/Get/GetTTL/IterValues/Step(n)/Wait/park-in-Wait/Advance(d)/Sweep/SweepWith(program of Set/Del/Get/IterValues inside the j-th OnEvict)/Quiesce/UpdateMaxCost/Clear (stand-in or live applier), always ended by drain + Close + calls on the closed cache. Oracle: reference model with explicit FIFO (rules R1-R9); only assertions owned by this property are reported, a case that breaks another property's assertion first is discarded and counted. Metrics on. C17-owned at drained points: Hits+Misses==Gets since creation/Clear, KeysAdded-KeysEvicted==resident keys, CostAdded-CostEvicted==MaxCost-RemainingCost (mod 2^64), SetsDropped==refused new-key Sets (and Set returns false iff the reference FIFO is full), GetsKept+GetsDropped<=Gets. Non-trivial: cost-lowering overwrite + eviction + drop. cacheconc stage: 2..16 (thorough ..64) goroutines x 10..120 generated ops on 2..32 shared keys (hot-key bias, some owned keys), GOMAXPROCS 1..16, yielding/fake-sleeping callbacks, setBufSize 1..1024, MaxCost 3..22, inside a synctest bubble; every op and callback stamped from one atomic counter; history oracles are linear-time and schedule-independent. End state laws from the history.",
     "C09": "policyconc stage: one Add that must evict 200..60000 cold residents runs while 1..6 batches of 64 unrelated recorded accesses are pushed 0..4 ms after it started, with the counters 1..200 (or far) from the TinyLFU reset; estimates of every tracked key are read before and after; every victim and a rejection must be justified by the reading before or by the reading after the halving (cases where a noise key touched a tracked counter are discarded and counted). Non-trivial: the period was completed by a concurrent batch, the newcomer lies between the halved and un-halved estimate of a hot resident, and something was evicted. policy stage: newDefaultPolicy with NumCounters 2..512, population 0..12 keys (costs 1 / 1..10 / 0..100) built through "
            "the fast path, 0..20 recorded accesses per key (round-robin, plus noise keys), MaxCost = sum + slack (0, 0..3, 0..60), "
            "incoming (key, cost) fitting / not fitting / == MaxCost / > MaxCost / cost 0 / already resident, own access count 0..20. "
